@@ -29,7 +29,7 @@ FORBIDDEN = re.compile(
 LEAN_MODULES = {
     "C01": ["TFV.Properties.EA", "TFV.Properties.Heap", "TFV.Properties.Src.Engine"],
     "C02": ["TFV.Properties.EA", "TFV.Properties.Src.Engine"],
-    "C03": ["TFV.Properties.EA", "TFV.Properties.Src.Engine"],
+    "C03": ["TFV.Properties.EA", "TFV.Properties.Src.Engine", "TFV.Properties.Src.Skeleton"],
     "C04": ["TFV.Properties.Rng"],
     "C05": ["TFV.Properties.EA"],
     "C06": ["TFV.Properties.BinOps", "TFV.Properties.Runs", "TFV.Properties.Src.BinKernels", "TFV.Properties.Src.BinKernels2"],
@@ -54,7 +54,7 @@ LEAN_MODULES = {
 SRC_KERNELS = {
     "C01": ["TheFittest_replace", "TheFittest_update"],
     "C02": ["TheFittest_replace", "TheFittest_update"],
-    "C03": ["TheFittest_replace", "TheFittest_update", "termination_check", "get_remains_calls"],
+    "C03": ["TheFittest_replace", "TheFittest_update", "termination_check", "get_remains_calls", "EA_fit"],
     "C06": ["flip_mutation", "binomialGA", "one_point_crossover", "two_point_crossover", "uniform_crossover",
             "uniform_proportional_crossover", "uniform_rank_crossover", "empty_crossover"],
     "C07": ["bounds_control", "binomial"],
